@@ -4,7 +4,8 @@ CONSTANTS
   Whats = {"ok", "other", "garbage"}
   MaxExtra = 0
   MaxOver = 1
+  MinN = 1
   Ops = {"vector"}
 VIEW ViewNoHist
 INVARIANTS TypeOK
-PROPERTIES ProofAcceptIffStatement PartAcceptIffOwnIndex ProofQuorum NarrowRejected
+PROPERTIES ProofAcceptIffStatement PartAcceptIffOwnIndex ProofQuorum NarrowRejected NewPartOwnIndex
